@@ -66,6 +66,26 @@ def obj_key(o):
     return ("UNCLASSIFIED", repr(o))
 
 
+def _wire(srv):
+    """facade.wire_connection with a facade that also types the boolean
+    request parameter ContinueOnError (an IPARAMVALUE carries no type; the
+    provider methods of the mock expect the bool their dispatcher normally
+    gets from the client code)."""
+    import facade
+
+    class PullFacade(facade.Facade):
+        @staticmethod
+        def typed(name, value):
+            if name == "ContinueOnError" and isinstance(value, str):
+                return value.upper() == "TRUE"
+            return facade.Facade.typed(name, value)
+
+    conn = pywbem.WBEMConnection("http://facade-host:5988",
+                                 default_namespace=NS1, timeout=10)
+    conn.session.mount("http://", PullFacade(srv))
+    return conn
+
+
 class Driver:
     """Executes abstract calls on a real mock connection and records events."""
 
@@ -73,15 +93,15 @@ class Driver:
         # wire=True: a real WBEMConnection talks CIM-XML to the mock through
         # harness/facade.py, so that the client-side response processing
         # (_get_rslt_params, _validate_context ...) is in the loop
-        self.srv = mockrepo.fresh()
         self.wire = wire
-        if wire:
-            import facade
-            self.conn, self.facade = facade.wire_connection(self.srv, NS1)
-        else:
-            self.conn = self.srv
-        self.ctx_ids = {}       # server context string -> abstract id
+        # the servers of the process (spec: Srvs): abstract server id ->
+        # (FakedWBEMConnection, connection used for the calls); server 2 is
+        # created when a history first uses it
+        self.servers = {}
+        self._server(1)
+        self.ctx_ids = {}       # (server id, context string) -> abstract id
         self.ctx_tuples = {}    # abstract id -> (server_ctx, ns) tuple
+        self.owner = {}         # abstract id -> server id that issued it
         self.events = []
         self.calls = []
         self.variant = variant
@@ -101,25 +121,53 @@ class Driver:
         except ImportError:
             pass
 
-    def nctx(self):
+    def _server(self, v):
+        if v not in self.servers:
+            srv = mockrepo.fresh()
+            if self.wire:
+                conn = _wire(srv)
+            else:
+                conn = srv
+            self.servers[v] = (srv, conn)
+        return self.servers[v]
+
+    @property
+    def srv(self):
+        return self.servers[1][0]
+
+    @property
+    def conn(self):
+        return self.servers[1][1]
+
+    def nctx(self, v=1):
         try:
-            return len(self.srv._mainprovider.enumeration_contexts)
+            return len(self._server(v)[0]._mainprovider.enumeration_contexts)
         except AttributeError:
             return -1
 
-    def _abs_ctx(self, ctx):
+    def _abs_ctx(self, v, ctx):
         if ctx is None or ctx[0] is None:
             return 0
-        sc = ctx[0]
-        if sc not in self.ctx_ids:
-            self.ctx_ids[sc] = len(self.ctx_ids) + 1
-        self.ctx_tuples[self.ctx_ids[sc]] = ctx
-        return self.ctx_ids[sc]
+        key = (v, ctx[0])
+        if key not in self.ctx_ids:
+            self.ctx_ids[key] = len(self.ctx_ids) + 1
+            self.owner[self.ctx_ids[key]] = v
+        self.ctx_tuples[self.ctx_ids[key]] = ctx
+        return self.ctx_ids[key]
 
     def _ctx_for(self, aid):
         if aid in self.ctx_tuples:
             return self.ctx_tuples[aid]
         return ("bogus-context-%d" % aid, NS1)
+
+    def _eff_id(self, v, aid):
+        """The abstract id of the context string of `aid` as seen by server v:
+        a server that has itself issued the very same string (possible for
+        servers that do not use uuids) is offered its OWN context, not a
+        foreign one."""
+        if aid in self.ctx_tuples and self.owner.get(aid) != v:
+            return self.ctx_ids.get((v, self.ctx_tuples[aid][0]), aid)
+        return aid
 
     def _target(self, k, nsid, n, tradok):
         ns = NSMAP[nsid]
@@ -145,9 +193,9 @@ class Driver:
         return dict(FilterQueryLanguage="WQL", FilterQuery="SELECT * FROM VN3",
                     namespace=ns)
 
-    def do_open(self, k, nsid, n, tradok, m):
+    def do_open(self, k, nsid, n, tradok, m, v=1, ot=-1, coe=-1):
         kw = self._target(k, nsid, n, tradok)
-        conn = self.conn
+        conn = self._server(v)[1]
         # the reference: the corresponding traditional operation
         try:
             if k == 7:
@@ -165,7 +213,9 @@ class Driver:
             kk = obj_key(o)
             if kk not in keys:
                 keys.append(kk)
-        self.calls.append({"op": OPEN_NAMES[k], "args": repr(kw), "max": m})
+        self.calls.append({"op": OPEN_NAMES[k], "args": repr(kw), "max": m,
+                           "srv": v, "OperationTimeout": ot,
+                           "ContinueOnError": coe})
         okw = dict(kw)
         if k == 7:
             okw = dict(FilterQueryLanguage="WQL",
@@ -173,13 +223,18 @@ class Driver:
                        namespace=kw["namespace"])
         if m != -1:
             okw["MaxObjectCount"] = m
-        ev = dict(op="Open", k=k, ns=nsid, all=list(range(1, len(keys) + 1)),
-                  tradok=t_ok, m=m, id=0)
+        if ot != -1:
+            okw["OperationTimeout"] = ot
+        if coe != -1:
+            okw["ContinueOnError"] = bool(coe)
+        ev = dict(op="Open", srv=v, k=k, ns=nsid,
+                  all=list(range(1, len(keys) + 1)),
+                  tradok=t_ok, m=m, id=0, ot=ot, coe=coe)
         try:
             r = getattr(conn, OPEN_NAMES[k])(**okw)
             objs = r.paths if hasattr(r, "paths") else r.instances
             ev.update(ok=True, code=0, objs=[self._oid(keys, o) for o in objs],
-                      eos=bool(r.eos), ctx=self._abs_ctx(r.context))
+                      eos=bool(r.eos), ctx=self._abs_ctx(v, r.context))
             if ev["ctx"]:
                 self.session_keys[ev["ctx"]] = keys
                 self.kind_of[ev["ctx"]] = 3 if k == 7 else (
@@ -190,7 +245,7 @@ class Driver:
         except Exception as exc:  # noqa: any other exception is not a refusal
             ev.update(ok=False, code=-2, objs=[], eos=False, ctx=0,
                       pyerror=type(exc).__name__)
-        ev["nctx"] = self.nctx()
+        ev["nctx"] = self.nctx(v)
         self.events.append(ev)
         return ev
 
@@ -199,93 +254,113 @@ class Driver:
         kk = obj_key(o)
         return keys.index(kk) + 1 if kk in keys else 99
 
-    def do_pull(self, pk, aid, m):
+    def do_pull(self, pk, aid, m, v=1):
         ctx = self._ctx_for(aid)
+        aid = self._eff_id(v, aid)
         keys = self.session_keys.get(aid, [])
-        self.calls.append({"op": PULL_NAMES[pk], "ctx": aid, "max": m})
-        ev = dict(op="Pull", k=pk, ns=0, all=[], tradok=True, m=m, id=aid)
+        self.calls.append({"op": PULL_NAMES[pk], "ctx": aid, "max": m,
+                           "srv": v})
+        ev = dict(op="Pull", srv=v, k=pk, ns=0, all=[], tradok=True, m=m,
+                  id=aid, ot=-1, coe=-1)
         try:
-            r = getattr(self.conn, PULL_NAMES[pk])(ctx, MaxObjectCount=m)
+            r = getattr(self._server(v)[1], PULL_NAMES[pk])(
+                ctx, MaxObjectCount=m)
             objs = r.paths if hasattr(r, "paths") else r.instances
             ev.update(ok=True, code=0, objs=[self._oid(keys, o) for o in objs],
-                      eos=bool(r.eos), ctx=self._abs_ctx(r.context))
+                      eos=bool(r.eos), ctx=self._abs_ctx(v, r.context))
         except CIMError as exc:
             ev.update(ok=False, code=int(exc.status_code), objs=[], eos=False,
                       ctx=0)
         except Exception as exc:  # noqa
             ev.update(ok=False, code=-2, objs=[], eos=False, ctx=0,
                       pyerror=type(exc).__name__)
-        ev["nctx"] = self.nctx()
+        ev["nctx"] = self.nctx(v)
         self.events.append(ev)
         return ev
 
-    def do_close(self, aid):
+    def do_close(self, aid, v=1):
         ctx = self._ctx_for(aid)
-        self.calls.append({"op": "CloseEnumeration", "ctx": aid})
-        ev = dict(op="Close", k=0, ns=0, all=[], tradok=True, m=0, id=aid,
-                  objs=[], eos=False, ctx=0)
+        aid = self._eff_id(v, aid)
+        self.calls.append({"op": "CloseEnumeration", "ctx": aid, "srv": v})
+        ev = dict(op="Close", srv=v, k=0, ns=0, all=[], tradok=True, m=0,
+                  id=aid, ot=-1, coe=-1, objs=[], eos=False, ctx=0)
         try:
-            self.conn.CloseEnumeration(ctx)
+            self._server(v)[1].CloseEnumeration(ctx)
             ev.update(ok=True, code=0)
         except CIMError as exc:
             ev.update(ok=False, code=int(exc.status_code))
         except Exception as exc:  # noqa
             ev.update(ok=False, code=-2, pyerror=type(exc).__name__)
-        ev["nctx"] = self.nctx()
+        ev["nctx"] = self.nctx(v)
         self.events.append(ev)
         return ev
 
-    def do_remove_ns(self, nsid):
+    def do_remove_ns(self, nsid, v=1):
         if nsid != 2:
             return None
-        if NS2.lower() not in [n.lower() for n in self.srv.namespaces]:
+        srv = self._server(v)[0]
+        if NS2.lower() not in [n.lower() for n in srv.namespaces]:
             return None
-        mockrepo.empty_and_remove_namespace(self.srv, NS2)
-        self.calls.append({"op": "remove_namespace", "ns": NS2})
-        ev = dict(op="RemoveNs", k=0, ns=2, all=[], tradok=True, m=0, id=0,
-                  ok=True, code=0, objs=[], eos=False, ctx=0, nctx=self.nctx())
+        mockrepo.empty_and_remove_namespace(srv, NS2)
+        self.calls.append({"op": "remove_namespace", "ns": NS2, "srv": v})
+        ev = dict(op="RemoveNs", srv=v, k=0, ns=2, all=[], tradok=True, m=0,
+                  id=0, ot=-1, coe=-1, ok=True, code=0, objs=[], eos=False,
+                  ctx=0, nctx=self.nctx(v))
         self.events.append(ev)
         return ev
 
-    def do_setpull(self, on):
-        self.srv.disable_pull_operations = not on
-        self.calls.append({"op": "disable_pull_operations", "value": not on})
-        ev = dict(op="SetPull", k=0, ns=0, all=[], tradok=True, m=0, id=0,
-                  ok=bool(on), code=0, objs=[], eos=False, ctx=0,
-                  nctx=self.nctx())
+    def do_setpull(self, on, v=1):
+        self._server(v)[0].disable_pull_operations = not on
+        self.calls.append({"op": "disable_pull_operations", "value": not on,
+                           "srv": v})
+        ev = dict(op="SetPull", srv=v, k=0, ns=0, all=[], tradok=True, m=0,
+                  id=0, ot=-1, coe=-1, ok=bool(on), code=0, objs=[], eos=False,
+                  ctx=0, nctx=self.nctx(v))
         self.events.append(ev)
         return ev
 
     def do_call(self, c):
         op = c["op"]
+        v = c.get("srv", 1)
         if op == "Open":
             return self.do_open(c["k"], c["ns"], len(c["all"]), c["tradok"],
-                                c["m"])
+                                c["m"], v, c.get("ot", -1), c.get("coe", -1))
         if op == "Pull":
-            return self.do_pull(c["k"], c["id"], c["m"])
+            return self.do_pull(c["k"], c["id"], c["m"], v)
         if op == "Close":
-            return self.do_close(c["id"])
+            return self.do_close(c["id"], v)
         if op == "RemoveNs":
-            return self.do_remove_ns(c["ns"])
+            return self.do_remove_ns(c["ns"], v)
         if op == "SetPull":
-            return self.do_setpull(c["tradok"])
+            return self.do_setpull(c["tradok"], v)
         raise vlib.MachineryError("unknown abstract call %r" % (c,))
 
     def epilogue(self):
-        """Behavioural NoLeak: close what is open, then every context ever
-        issued must be refused by Pull and by CloseEnumeration."""
-        if self.srv.disable_pull_operations:
-            self.do_setpull(True)
+        """Behavioural NoLeak: close what is open (each session on the server
+        that owns it), then every context ever issued must be refused by Pull
+        and by CloseEnumeration - on its own server and on every other one."""
+        for v in sorted(self.servers):
+            if self.servers[v][0].disable_pull_operations:
+                self.do_setpull(True, v)
         for aid in sorted(self.ctx_tuples):
-            self.do_close(aid)
+            self.do_close(aid, self.owner[aid])
         for aid in sorted(self.ctx_tuples):
-            self.do_pull(1, aid, 1)
-            self.do_close(aid)
+            for v in sorted(self.servers):
+                self.do_pull(1, aid, 1, v)
+                self.do_close(aid, v)
 
 
 def random_trace(rng, variant, wire=False):
     d = Driver(variant, wire)
     n_ops = rng.randint(3, 14)
+    # every third history runs two servers in the process (spec: Srvs={1,2})
+    srvs = [1, 2] if rng.random() < 0.34 else [1]
+
+    def where(aid):
+        # the owner's server in 3 of 4 cases, otherwise any (foreign context)
+        own = d.owner.get(aid, rng.choice(srvs))
+        return own if rng.random() < 0.75 else rng.choice(srvs)
+
     for _ in range(n_ops):
         open_ids = sorted(d.ctx_tuples)
         x = rng.random()
@@ -294,7 +369,10 @@ def random_trace(rng, variant, wire=False):
             nsid = rng.choice([1, 1, 1, 2, 3]) if k in (1, 2, 7) else 1
             n = rng.choice([0, 1, 2, 3, 4, 5, 7])
             m = rng.choice([-1, 0, 0, 1, 1, 2, 3, 5, 100])
-            d.do_open(k, nsid, n, rng.random() > 0.1, m)
+            ot = rng.choice([-1, -1, 0, 0, 1, 40])
+            coe = rng.choice([-1, -1, 0, 1])
+            d.do_open(k, nsid, n, rng.random() > 0.1, m, rng.choice(srvs),
+                      ot, coe)
         elif x < 0.80:
             aid = rng.choice(open_ids + [rng.randint(1, 5)])
             y = rng.random()
@@ -302,13 +380,15 @@ def random_trace(rng, variant, wire=False):
                 pk = d.kind_of[aid]
             else:
                 pk = rng.choice([1, 2, 3])
-            d.do_pull(pk, aid, rng.choice([0, 0, 1, 1, 2, 3, 100]))
+            d.do_pull(pk, aid, rng.choice([0, 0, 1, 1, 2, 3, 100]),
+                      where(aid))
         elif x < 0.90:
-            d.do_close(rng.choice(open_ids + [rng.randint(1, 5)]))
+            aid = rng.choice(open_ids + [rng.randint(1, 5)])
+            d.do_close(aid, where(aid))
         elif x < 0.95:
-            d.do_remove_ns(2)
+            d.do_remove_ns(2, rng.choice(srvs))
         else:
-            d.do_setpull(rng.random() < 0.5)
+            d.do_setpull(rng.random() < 0.5, rng.choice(srvs))
     d.epilogue()
     return d
 
@@ -337,9 +417,15 @@ def run(ctx):
             "responses; NObj=3, 2 context ids)", coverage=True)
     ctx.tlc("PullSrvMC", "PullSrvMCLive.cfg",
             label="Req liveness: repeated Pull(Max>0) terminates (WF)")
+    ctx.tlc("PullSrvMC", "PullSrvMC2.cfg",
+            label="Req safety, two servers in one process (foreign contexts, "
+            "Isolated), OperationTimeout {omitted, 0}")
     if not quick:
         ctx.tlc("PullSrvMC", "PullSrvMCBig.cfg", timeout=3000,
                 label="Req safety, larger constants + namespace removal/pull toggle")
+        ctx.tlc("PullSrvMC", "PullSrvMC2Big.cfg", timeout=3000,
+                label="Req safety, two servers, all OperationTimeout / "
+                "ContinueOnError values, both pull kinds")
     # ---- 2. code-shaped machine refines the requirement machine ------------
     r_cover = ctx.tlc("PullSrvImpl", "PullSrvImplCover.cfg", workers=1,
                       label="Impl => Req refinement (fixed code shape) + "
@@ -362,11 +448,38 @@ def run(ctx):
         raise vlib.MachineryError("PullSrvImplLegacyTrim did not fail")
     ctx.extra["sensitivity"].append(
         "PullSrvImplLegacyTrim.cfg violates %s as required" % r_trim.violated)
+    r_cover2 = ctx.tlc("PullSrvImpl", "PullSrvImpl2.cfg", workers=1,
+                       label="Impl => Req refinement, two servers with own "
+                       "context tables (foreign contexts) + transition dump")
+    r_sh = ctx.tlc("PullSrvImpl", "PullSrvImplShared.cfg", must_pass=False,
+                   count=False, label="must-fail config: one context table "
+                   "shared by all servers of the process")
+    if r_sh.violated != "ImplRefinesReq":
+        raise vlib.MachineryError("PullSrvImplShared did not fail: %s"
+                                  % r_sh.violated)
+    ctx.extra["sensitivity"].append(
+        "PullSrvImplShared.cfg (SharedContextTable) violates ImplRefinesReq "
+        "as required")
+    r_ex = ctx.tlc("PullSrvImpl", "PullSrvImplExpire.cfg", must_pass=False,
+                   count=False, label="must-fail config: session expiry "
+                   "without special-casing OperationTimeout=0")
+    if r_ex.violated != "ImplRefinesReq":
+        raise vlib.MachineryError("PullSrvImplExpire did not fail: %s"
+                                  % r_ex.violated)
+    ctx.extra["sensitivity"].append(
+        "PullSrvImplExpire.cfg (ExpireSessions) violates ImplRefinesReq as "
+        "required")
     # ---- 3. spec -> code: call sequences from TLC ---------------------------
     trans = [(t[1], t[2], t[3]) for t in r_cover.printed("TR")]
     paths, nstates, ntrans = cover_paths(
-        trans, rng=ctx.rng, limit=700 if quick else None)
+        trans, rng=ctx.rng, limit=450 if quick else 12000)
+    trans2 = [(t[1], t[2], t[3]) for t in r_cover2.printed("TR")]
+    paths2, nstates2, ntrans2 = cover_paths(
+        trans2, rng=ctx.rng, limit=250 if quick else 5000)
+    paths = paths + paths2
     ctx.extra["impl_graph"] = {"states": nstates, "transitions": ntrans,
+                               "two_server_states": nstates2,
+                               "two_server_transitions": ntrans2,
                                "transitions_replayed": len(paths)}
     drivers = []
     for i, calls in enumerate(paths):
@@ -379,7 +492,7 @@ def run(ctx):
         drivers.append(run_calls(b, variant=i, wire=(i % 3 == 0)))
     ctx.extra["tlc_behaviours_replayed"] = len(behs)
     # ---- 4. code -> spec: seeded random histories ---------------------------
-    nrand = 1000 if quick else 8000
+    nrand = 900 if quick else 8000
     for i in range(nrand):
         drivers.append(random_trace(ctx.rng, i, wire=(i % 4 == 0)))
     ctx.extra["traces_through_cimxml_facade"] = sum(
@@ -431,6 +544,13 @@ def run(ctx):
         "must be refused after close) does not depend on it",
         "OpenQueryInstances sessions do not exist in the mock (ExecQuery is "
         "unimplemented): only refusal paths are bound for the query kind",
+        "prompt client: all calls of a history are issued within far less "
+        "than the smallest positive OperationTimeout used (1 s), so no "
+        "session may expire; OperationTimeout values are the legal ones "
+        "(omitted, 0 = never, 1, 40 = the mock's OPEN_MAX_TIMEOUT)",
+        "several servers in one process = several FakedWBEMConnection objects "
+        "(deep copies of one primed template); a context string is foreign "
+        "on a server unless that server issued the same string itself",
     ]
     ctx.exhaustive = False
 
@@ -463,16 +583,18 @@ def replay(rep):
     print("replaying %d calls for %s (%s)" % (len(calls), rep["property"],
                                               rep["signature"]))
     for e in case["events"]:
+        v = e.get("srv", 1)
         if e["op"] == "Open":
-            d.do_open(e["k"], e["ns"], len(e["all"]), e["tradok"], e["m"])
+            d.do_open(e["k"], e["ns"], len(e["all"]), e["tradok"], e["m"], v,
+                      e.get("ot", -1), e.get("coe", -1))
         elif e["op"] == "Pull":
-            d.do_pull(e["k"], e["id"], e["m"])
+            d.do_pull(e["k"], e["id"], e["m"], v)
         elif e["op"] == "Close":
-            d.do_close(e["id"])
+            d.do_close(e["id"], v)
         elif e["op"] == "RemoveNs":
-            d.do_remove_ns(e["ns"])
+            d.do_remove_ns(e["ns"], v)
         elif e["op"] == "SetPull":
-            d.do_setpull(e["ok"])
+            d.do_setpull(e["ok"], v)
     ctx = vlib.Ctx(rep["property"] + "_replay", "quick", rep.get("seed", 0))
     clean = [[{k: v for k, v in e.items() if k != "pyerror"}
               for e in d.events]]
